@@ -76,7 +76,7 @@ EXHAUSTIVE_SCOPE = {
            "c (1 task x 3 steps, 2 threads x 1 section, one nested) : every schedule with <= 1 deviation from the default "
            "round-robin schedule at window lines / forced switches, both hub modes, both base orders; scenario d: every pair of "
            "lock programs of length 3 and every triple of length 2 over {acquire, try, release, yield} on one lock (inline hub), every "
-           "(length-3, length-2) pair over {helper-acquire, helper-release, release-by-other, acquire, yield}, 25 x 25 x 5 triples of "
+           "(length-3, length-2) pair over {helper-acquire, helper-release, release-by-other, acquire, yield}, 25 x 25 x 3 triples of "
            "length 2 over {acquire, helper-acquire, try, release-by-other, yield} on a lock created locked, default schedule; b "
            "with a target that yields 0 once per resume and waits in Sleep(); a (1 thread + 2 follow-up hand-overs) with the real "
            "PipePinger: one non-default choice at a forced switch followed by one pre-emption inside PipePinger.ping/pong/pong_all; the same deviation enumeration (<= 1) with the scheduler under test not being recoco.defaultScheduler, and "
@@ -251,6 +251,29 @@ class _Bail(Exception):
   """Raised on purpose by the body of a synchronized() section in scenario c."""
 
 
+class _Deliberate(object):
+  """Marks exceptions raised on purpose by handed-over functions in scenario a."""
+
+
+class _HException(_Deliberate, Exception):
+  pass
+
+
+class _HSystemExit(_Deliberate, SystemExit):
+  pass
+
+
+class _HKeyboardInterrupt(_Deliberate, KeyboardInterrupt):
+  pass
+
+
+class _HGeneratorExit(_Deliberate, GeneratorExit):
+  pass
+
+
+_RAISES = {"E": _HException, "S": _HSystemExit, "K": _HKeyboardInterrupt, "G": _HGeneratorExit}
+
+
 class _Obs(object):
   def __init__(self):
     self.s = None
@@ -262,6 +285,7 @@ class _Obs(object):
     self.labels = []
     self.sched_thread = None  # the thread that runs Scheduler.run()
     self.creator = None       # optional: run by the main thread between starting and joining the foreign threads
+    self.time_passes = False  # the scenario lets virtual time pass on purpose (no "needed the polling timeout" verdict)
     self.tail = None          # optional: run by the main thread after the foreign threads were joined
     self.patches = []         # optional: extra context managers for the run
 
@@ -322,18 +346,25 @@ def _scn_a(p, ds, obs, m):
   expected = [(sid, j) for sid in sorted(counts) for j in range(counts[sid])]
   nextj = dict((sid, 0) for sid in counts)
 
-  def mk(i, j, t0, then=None):
+  def mk(i, j, t0, then=None, exc=None):
     def f(*a, **kw):
       log.append((i, j, _rt.current_thread() is obs.sched_thread, t0, ds.vtime()))
       if then is not None:
         then()
+      if exc is not None:
+        raise _RAISES[exc]("raised on purpose by handed-over function %r" % ((i, j),))
     return f
 
   def submit_one(sid, op, then=None):
+    # op may carry a suffix ":E" / ":S" / ":K" / ":G": the function raises Exception / SystemExit / KeyboardInterrupt /
+    # GeneratorExit after doing its work (the functions handed over behind it must run all the same)
     s = obs.s
     j = nextj[sid]
     nextj[sid] = j + 1
-    f = mk(sid, j, ds.vtime(), then)
+    exc = None
+    if ":" in op:
+      op, exc = op.split(":")
+    f = mk(sid, j, ds.vtime(), then, exc)
     if op == "cl":
       s.callLater(f)
     elif op == "co":
@@ -600,6 +631,14 @@ def _scn_c(p, ds, obs, m):
   stepcount = [0]
   sections = [0]
   raised = [0]
+  # p["quit"] = {"task": i, "step": k, "dur8": n, "by": "main" | "task"}: step k of task i is a long slice (it blocks the
+  # scheduler thread for n/8 virtual seconds, like a long computation); scheduler.quit() is called during that slice, by the
+  # task itself or by the main thread, while the foreign threads are waiting to get into their (single) section.  quit() only
+  # requests the end: the slice goes on, so nobody may get inside before it is over.  On the unchanged tree the waiting
+  # threads then wait for ever (the scheduler never runs their SyncTask); the harness lets them go once the scheduler
+  # thread has ended, as a caller would have to.
+  quit_ = p.get("quit")
+  syncs = []
 
   def tgen(task):
     i = task._h - 1
@@ -612,12 +651,32 @@ def _scn_c(p, ds, obs, m):
       in_step[0] = i
       stepcount[0] += 1
       ds.switch_point("task.step", True)
+      if quit_ and quit_["task"] % len(tasks) == i and quit_["step"] % tasks[i] == k:
+        if quit_["by"] == "task":
+          obs.s.quit()
+        ds.time.sleep(quit_["dur8"] / 8.0)
+        ds.switch_point("task.step-after-long-part", True)
       if inside[0]:
         obs.fail("task-ran-inside-section", "scenario c: a foreign thread got inside scheduler.synchronized() in the middle of "
                  "step %d of task %d" % (k, i), scn="c")
       in_step[0] = None
       yield 0
     done[i] = 1
+
+  def quit_flow(s):
+    ds.wait_quiescent("c: long slice in progress, foreign threads waiting")
+    if in_step[0] is None:
+      raise HarnessError("C07 scenario c/quit: the long slice is not in progress at quiescence")
+    if quit_["by"] == "main":
+      s.quit()
+    ds.time.sleep(quit_["dur8"] / 8.0 + 1)
+    obs.sched_thread.join()
+    for sy in syncs:      # let the threads that still wait for the (now ended) scheduler go
+      if sy.syncer is not None and sy.syncer.inlock.locked():
+        sy.syncer.inlock.release()
+  if quit_:
+    obs.creator = quit_flow
+    obs.time_passes = True
 
   def check_inside(where):
     if in_step[0] is not None:
@@ -663,8 +722,10 @@ def _scn_c(p, ds, obs, m):
       s = obs.s
       for sec in threads[i]:
         depth, kind, catch = spec(sec)
+        sy = s.synchronized()
+        syncs.append(sy)
         try:
-          with s.synchronized():
+          with sy:
             inside[0] += 1
             try:
               check_inside("on entry")
@@ -684,7 +745,7 @@ def _scn_c(p, ds, obs, m):
 
   def judge(out, final):
     q = obs.q
-    if q is not None and not all(q["done"]):
+    if q is not None and not all(q["done"]) and not quit_:
       late = all(final["done"])
       out.fail("wakeup-needs-poll" if late else "scheduler-not-resumed",
                "scenario c: all sections were left but at quiescence tasks done=%r (%s)" % (
@@ -1010,6 +1071,10 @@ def _execute(case):
     return exc_is_from_harness(e)
 
   def triage(e, clause, who):
+    if isinstance(e, _Deliberate):
+      out.fail("handed-over-exception-escaped", "%s: the exception %r raised by a handed-over function was not contained by the "
+               "call-later machinery" % (who, e), scn=scn)
+      return
     if from_harness(e):
       raise HarnessError("C07: harness exception on %s: %r" % (who, e)) from e
     out.violations.append({"key": exc_key(e, clause=clause, scn=scn), "msg": "%s: %r" % (who, e)})
@@ -1022,7 +1087,7 @@ def _execute(case):
     out.fail("blocked-forever", "scenario %s: threads blocked for ever while only the pollers keep waking: %r" % (scn, res.stalled), scn=scn)
   for clause, msg, key in obs.viol:
     out.fail(clause, msg, **key)
-  if scn != "d" and obs.q_adv:
+  if scn != "d" and obs.q_adv and not obs.time_passes:
     out.fail("wakeup-needs-poll", "scenario %s: virtual time had to advance %r before the system became quiescent: every thread was "
              "blocked while work was pending" % (scn, res.time_advances[:obs.q_adv]), scn=scn)
   if res.deadlock is None and res.stalled is None:
@@ -1048,6 +1113,11 @@ def _execute(case):
     out.label("a:scheduler-thread-submitter")
   if case.get("runner"):
     out.label("runner:" + case["runner"])
+  if scn == "a" and any(isinstance(op, str) and ":" in op for pr in case["p"]["threads"] for op in
+                        (pr + [x for o in pr if isinstance(o, list) and o[0] == "n" for x in o[1]])):
+    out.label("a:function-raises")
+  if scn == "c" and case["p"].get("quit"):
+    out.label("c:quit-during-slice")
   if scn == "a" and any(isinstance(op, list) and op[0] == "b" for pr in case["p"]["threads"] for op in pr):
     tot = sum(op[1] if isinstance(op, list) and op[0] == "b" else 1 for pr in case["p"]["threads"] for op in pr)
     out.label("a:burst", "a:burst-total:%s" % (tot if tot in BURSTS else ("multiple-of-1024" if tot % 1024 == 0 else "other")))
@@ -1160,6 +1230,40 @@ def _enum_sched_thread_submitters(tier):
           if runner:
             c["runner"] = runner
           yield c
+  return gen
+
+
+def _enum_raising_functions(tier):
+  """Batches in which a handed-over function raises (Exception, SystemExit, KeyboardInterrupt, GeneratorExit) with further
+  functions queued behind it in the same batch (the thread submits before the scheduler drains), default schedule."""
+  def gen():
+    for exc in ("E", "S", "K", "G"):
+      for w in ("cl", "co", "rl"):
+        for progs in ([[w + ":" + exc, "cl"]], [["cl", w + ":" + exc, "co", "rl"]], [[w + ":" + exc], ["cl", "cl"]],
+                      [["cl", ["n", [w + ":" + exc, "cl"]]]]):
+          for hub in (True, False):
+            for hold in (False, True):
+              yield {"scn": "a", "hub": hub, "pinger": "real" if hold else "fake", "p": {"threads": progs, "hold": hold, "tail": 1},
+                     "sched": {"on": "win", "base": 0, "devs": []}}
+  return gen
+
+
+def _enum_quit_during_slice(tier):
+  """Scenario c with scheduler.quit() requested (by the main thread / by the task itself) in the middle of a long task
+  slice while foreign threads wait to enter synchronized(); default schedule and <= 1 deviation for the smallest one."""
+  def gen():
+    for by in ("main", "task"):
+      for dur8 in (17, 24, 40):
+        for step in (0, 1):
+          for threads in ([[1]], [[2], [1]]):
+            for hub in (True, False):
+              yield {"scn": "c", "hub": hub, "p": {"tasks": [2, 1], "threads": threads,
+                                                     "quit": {"task": 0, "step": step, "dur8": dur8, "by": by}},
+                     "sched": {"on": "win", "base": 0, "devs": []}}
+    p = {"tasks": [2], "threads": [[1]], "quit": {"task": 0, "step": 0, "dur8": 24, "by": "main"}}
+    for hub in (True, False):
+      for c in _dev_cases("c", p, hub, 0, 1):
+        yield c
   return gen
 
 
@@ -1277,7 +1381,7 @@ def _enum_locks(tier):
     progs4 = [list(x) for x in itertools.product(_D_OPS4, repeat=2)]
     for a in progs4:
       for b in progs4:
-        for c in progs4[::(2 if tier == "thorough" else 6)]:
+        for c in progs4[::(2 if tier == "thorough" else 12)]:
           yield {"scn": "d", "hub": False, "p": {"locks": 1, "init": [True], "tasks": [a, b, c]},
                  "sched": {"on": "win", "base": 0, "devs": []}}
     progs2t = [list(x) for x in itertools.product(_D_OPS1, repeat=2)]
@@ -1311,7 +1415,7 @@ def _strategy(tier):
   big = tier == "thorough"
 
   def s():
-    op = st.sampled_from(["cl", "cl", "co", "rl"])
+    op = st.sampled_from(["cl", "cl", "cl", "co", "co", "rl", "rl", "cl:E", "cl:S", "co:K", "rl:S", "cl:G"])
     nop = st.one_of(op, op, op, st.tuples(st.just("n"), st.lists(op, min_size=1, max_size=4)).map(list))
     pa = st.fixed_dictionaries({"threads": st.lists(st.lists(nop, min_size=1, max_size=3), min_size=1, max_size=3),
                                 "tail": st.sampled_from([0, 0, 1, 2]), "creator": st.sampled_from([0, 0, 1, 2]),
@@ -1350,7 +1454,7 @@ def _enum_nondefault(tier):
     for scn, p in [("a", {"threads": [["cl"], ["co"]]}), ("a", {"threads": [["cl", "rl"]]}),
                    ("b", {"wakers": [1], "inthread": 1}), ("c", {"tasks": [2], "threads": [[1]]})]:
       for hub in (True, False):
-        for base in (0, 1):
+        for base in ((0, 1) if (tier == "thorough" or scn == "b") else (0,)):
           bound = 0 if scn == "c" else (2 if tier == "thorough" and scn == "b" else 1)
           for c in _dev_cases(scn, p, hub, base, bound, cfg="nondefault"):
             yield c
@@ -1358,7 +1462,7 @@ def _enum_nondefault(tier):
 
 
 def plan(tier):
-  n = 1600 if tier == "quick" else 40000
+  n = 1200 if tier == "quick" else 40000
   return [Enum("sched-deviations", _enum_sched(tier), shards=8 if tier == "quick" else 16),
           Enum("lock-programs", _enum_locks(tier), shards=16),
           Enum("nondefault-scheduler", _enum_nondefault(tier), shards=4 if tier == "quick" else 16),
@@ -1366,5 +1470,7 @@ def plan(tier):
           Enum("pinger-windows", _enum_pinger_windows(tier), shards=4 if tier == "quick" else 16),
           Enum("opcode-calllater", _enum_opcode_calllater(tier), shards=6 if tier == "quick" else 16),
           Enum("scheduler-thread-submitters", _enum_sched_thread_submitters(tier), shards=2),
+          Enum("raising-functions", _enum_raising_functions(tier), shards=2),
+          Enum("quit-during-slice", _enum_quit_during_slice(tier), shards=2),
           Enum("creator-runner", _enum_creator_runner(tier), shards=6 if tier == "quick" else 16),
           Hyp("random-schedules", _strategy(tier), examples=n, shards=12 if tier == "quick" else 16)]
